@@ -160,3 +160,26 @@ package btccurve
 //@   ensures  implies(forall(i, 0, len(k), k[i] == 0), *xr == 0 && *yr == 0)
 //@   panics   never
 //@   noframe
+
+// ---- group level (variant group): ScalarMult returns the k-fold multiple of the base point for every byte
+// string k, k read as a big-endian number (leading zero bytes, zero, values at or above the group order
+// included). The callees are used through their group-level reading (assumed in
+// /verif/contracts/deps/secp256k1_group.spec on top of their proved field contracts); pre(k, i) is the number
+// formed by the first i bytes.
+//@ rec pre(k []byte, i int) mathint = ite(i <= 0, 0, pre(k, i-1)*256 + mathint(k[i-1]))
+//@ spec jaff(x mathint, y mathint) mathint = jp(x, y, ite(x == 0 && y == 0, 0, 1))
+//@ func (curve koblitzCurve) ScalarMult(Bx *big.Int, By *big.Int, k []byte) (xr *big.Int, yr *big.Int)
+//@   variant group
+//@   theory secpgroup
+//@   requires Bx != nil && By != nil
+//@   ensures  xr != nil && yr != nil && jaff(*xr, *yr) == gmul(pre(k, len(k)), jaff(old(*Bx), old(*By)))
+//@   noframe
+//@   loop 1 invariant 0 <= _i1 && _i1 <= len(k) && x != nil && y != nil && z != nil && Bz != nil && pre(k, _i1) >= 0
+//@   loop 1 invariant *Bx == old(*Bx) && *By == old(*By) && *Bz == ite(*Bx == 0 && *By == 0, 0, 1)
+//@   loop 1 invariant implies(!seenFirstTrue, pre(k, _i1) == 0 && *x == *Bx && *y == *By && *z == *Bz)
+//@   loop 1 invariant implies(seenFirstTrue, jp(*x, *y, *z) == gmul(pre(k, _i1), jaff(*Bx, *By)))
+//@   loop 1.1 invariant 0 <= bitNum && bitNum <= 8 && x != nil && y != nil && z != nil && pre(k, _i1) >= 0
+//@   loop 1.1 invariant *Bx == old(*Bx) && *By == old(*By) && *Bz == ite(*Bx == 0 && *By == 0, 0, 1)
+//@   loop 1.1 invariant mathint(byte) == (mathint(k[_i1])*p2(bitNum)) % 256
+//@   loop 1.1 invariant implies(!seenFirstTrue, pre(k, _i1) == 0 && mathint(k[_i1])/p2(8-bitNum) == 0 && *x == *Bx && *y == *By && *z == *Bz)
+//@   loop 1.1 invariant implies(seenFirstTrue, jp(*x, *y, *z) == gmul(pre(k, _i1)*p2(bitNum) + mathint(k[_i1])/p2(8-bitNum), jaff(*Bx, *By)))
